@@ -282,3 +282,104 @@ class Profile:
                 return
             prev = cur
             w.resume()
+
+
+class OpProfile(Profile):
+    """Profile with an operator alphabet: at most `op_budget` commands per
+    execution, offered at every main-loop boundary (DESIGN.md 3.3)."""
+
+    def __init__(self, spec, *, ops=None, op_budget: int = 1,
+                 op_when=None, stops=(), down_steps: bool = False,
+                 stop_after_op: bool = False, **kw):
+        super().__init__(spec, **kw)
+        # stop modes offered (StopMode names); each stop needs a restart
+        self.stops = tuple(stops)
+        self.down_steps = down_steps
+        self.stop_after_op = stop_after_op
+        # ops(world) -> list of (name, kwargs-dict)
+        self.ops = ops or (lambda w: [])
+        self.op_budget = op_budget
+        self.op_when = op_when      # optional predicate world -> bool
+
+    def make_world(self):
+        w = super().make_world()
+        w.op_count = 0
+        w.op_log = []
+        w.n_stops = 0
+        return w
+
+    def extra_key(self, w):
+        return (w.op_count, tuple(w.op_log), w.n_stops)
+
+    def operator_events(self, w):
+        out = []
+        if w.op_count < self.op_budget and (
+                self.op_when is None or self.op_when(w)):
+            for name, kwargs in self.ops(w):
+                out.append(('op', name, _freeze(kwargs)))
+        if (w.n_stops < self.max_restarts and w.schd.stop_mode is None
+                and (w.op_count > 0 or not self.stop_after_op)):
+            for mode in self.stops:
+                out.append(('stop', mode))
+        return out
+
+    def enabled(self, w):
+        if not w.running and self.down_steps and (
+                w.n_restarts < self.max_restarts):
+            # the scheduler is down: jobs keep running, messages are lost
+            evs = [('restart',)]
+            for jk in sorted(w.env.jobs):
+                job = w.env.jobs[jk]
+                for step in self.job_steps(w, job):
+                    evs.append(('job', jk, step))
+            return evs
+        return super().enabled(w)
+
+    def apply(self, w, ev):
+        if ev[0] == 'stop':
+            from cylc.flow.workflow_status import StopMode
+            w.n_stops += 1
+            w.command('stop', mode=StopMode[ev[1]])
+            w.resume()
+            # the scheduler needs a few iterations to wind down
+            for _ in range(50):
+                if not w.running:
+                    break
+                if ev[1] == 'REQUEST_CLEAN' and (
+                        w.env.pending() or any(
+                            j.live for j in w.env.jobs.values())):
+                    break       # waits for active jobs: environment's turn
+                w.resume()
+            return
+        if ev[0] == 'job' and not w.running:
+            w.job_step(tuple(ev[1]), ev[2])    # message lost (not running)
+            return
+        return super().apply(w, ev)
+
+    def apply_op(self, w, ev):
+        _, name, kwargs = ev
+        kw = _thaw(kwargs)
+        w.op_count += 1
+        w.op_log.append((name, _freeze(kw)))
+        res = w.command(name, **kw)
+        w.last_op_result = res
+
+
+def _freeze(x):
+    if isinstance(x, dict):
+        return tuple(sorted((k, _freeze(v)) for k, v in x.items()))
+    if isinstance(x, (list, tuple)):
+        return ('__list__',) + tuple(_freeze(i) for i in x)
+    return x
+
+
+def _thaw(x):
+    if isinstance(x, (tuple, list)):
+        x = tuple(x)
+        if x and x[0] == '__list__':
+            return [_thaw(i) for i in x[1:]]
+        if all(isinstance(i, (tuple, list)) and len(i) == 2
+               and isinstance(i[0], str) for i in x):
+            return {k: _thaw(v) for k, v in x}
+        return [_thaw(i) for i in x]
+    return x
